@@ -385,3 +385,82 @@ def c10b_length_writers(prog, res):
                                 "not allocated in this function: shrinking or growing a live object in place leaves a gap "
                                 "or an overlap the sweep cannot parse" % (path[1], path[2]), unit=fn.unit.display))
     return stat
+
+
+# ------------------------------------------------------------------ C10.c heap segment sizes are granule aligned
+
+def _aligned(fn, n, at_pos, pos, dom, depth=0):
+    """is integer expression n certainly a multiple of the heap granule (HEAP_ALIGN)?"""
+    from cfg import local_defs, enclosing_elem, dominates
+    if n is None or n < 0 or depth > 8:
+        return False
+    nd = fn.nodes[n]
+    k = nd["k"]
+    if "v" in nd and k in ("int", "const", "ref"):
+        return nd["v"] % HEAP_ALIGN == 0
+    if k == "cast":
+        return _aligned(fn, nd["c"][0], at_pos, pos, dom, depth + 1)
+    if k == "bin":
+        o = nd["o"]
+        a, b = nd["c"]
+        if o == "&":
+            for x in (a, b):
+                v = fn.const_val(x)
+                if v is not None and (v & (HEAP_ALIGN - 1)) == 0:
+                    return True
+            return False
+        if o in ("+", "-"):
+            return _aligned(fn, a, at_pos, pos, dom, depth + 1) and _aligned(fn, b, at_pos, pos, dom, depth + 1)
+        if o == "*":
+            for x, y in ((a, b), (b, a)):
+                if _aligned(fn, x, at_pos, pos, dom, depth + 1):
+                    ys = fn.strip(y)
+                    yt = fn.type(ys) or ""
+                    if fn.nodes[ys]["k"] == "int" or (fn.nodes[ys]["k"] in ("const", "ref", "call") and
+                                                      not any(t in yt for t in ("double", "float"))):
+                        return True
+            return False
+        if o in ("<<",):
+            return _aligned(fn, a, at_pos, pos, dom, depth + 1)
+        return False
+    if k == "cond":
+        return _aligned(fn, nd["c"][1], at_pos, pos, dom, depth + 1) and _aligned(fn, nd["c"][2], at_pos, pos, dom, depth + 1)
+    if k == "call" and nd.get("o") in ("ceil", "floor", "__builtin_ceil", "__builtin_floor", "round"):
+        return _aligned(fn, nd["c"][1], at_pos, pos, dom, depth + 1)
+    if k == "ref" and "d" in nd:
+        defs = local_defs(fn, nd["d"])
+        defs = [(d, r) for (d, r) in defs if r is not None]
+        if nd["d"] in fn.params:
+            # a parameter counts only through an assignment that dominates the use
+            good = [(d, r) for (d, r) in defs if dominates(dom, enclosing_elem(fn, d, pos), at_pos)]
+            return bool(good) and all(_aligned(fn, r, at_pos, pos, dom, depth + 1) for (d, r) in defs)
+        return bool(defs) and all(_aligned(fn, r, at_pos, pos, dom, depth + 1) for (d, r) in defs)
+    if k == "mem" and nd["o"] == "size":
+        return True      # size of an existing heap segment (aligned by induction on this rule)
+    return False
+
+
+def c10c_heap_sizes(prog, res):
+    from cfg import dominators, elem_positions, enclosing_elem
+    stat = res.stat("C10.c", "every heap segment is created with a size that is a multiple of the %d-byte granule" % HEAP_ALIGN,
+                    floor=3)
+    for fn in prog.all_funcs():
+        pos = dom = None
+        for i, nd in enumerate(fn.nodes):
+            if nd["k"] == "call" and nd.get("o") == "sexp_make_heap" and len(nd["c"]) > 1:
+                stat.sites += 1
+                stat.obligations += 1
+                if pos is None:
+                    pos = elem_positions(fn)
+                    dom = dominators(fn)
+                here = enclosing_elem(fn, i, pos)
+                if _aligned(fn, nd["c"][1], here, pos, dom):
+                    stat.discharged += 1
+                    stat.sample({"site": fn.where(i), "function": fn.name, "size": fn.txt(nd["c"][1])[:60]})
+                else:
+                    res.add(Finding("C10", "C10.c.unaligned-heap-size", fn.name, "sexp_make_heap(%s)" % fn.txt(nd["c"][1])[:50],
+                                    fn.where(i), "%s creates a heap segment whose size `%s` is not provably a multiple of "
+                                    "the %d-byte allocation granule: the segment's end and its last free chunk then fall "
+                                    "between granules and the heap can no longer be parsed as a tiling of objects and free chunks"
+                                    % (fn.name, fn.txt(nd["c"][1])[:60], HEAP_ALIGN), unit=fn.unit.display))
+    return stat
